@@ -407,13 +407,15 @@ theorem mem_indexed {α} (l : List α) (p : Nat × α) : p ∈ indexed l ↔ l[p
     have hlt : p.1 < l.length := (List.getElem?_eq_some_iff.1 h).1
     exact ⟨p.1, List.getElem?_zip_eq_some.2 ⟨List.getElem?_range hlt, h⟩⟩
 
-/-- flows that wait for a release from a predecessor -/
-def isRel : FlowKind → Bool
-  | .data => true | .ctl1 => true | .ctl _ => true | _ => false
-
-/-- flows whose bit is set by `parsec_check_IN_dependencies_with_mask` -/
-def isIn : FlowKind → Bool
-  | .localData => true | .ctlNone => true | .writeOnly => true | _ => false
+theorem rel_in_disjoint (k : FlowKind) (h : isRel k = true) : isIn k = false := by
+  cases k with
+  | dataDeps d =>
+    simp only [isRel, isIn, beq_iff_eq] at h ⊢
+    rw [h]; simp
+  | ctlDeps d =>
+    simp only [isRel, isIn] at h ⊢
+    rw [h]; rfl
+  | _ => simp_all [isRel, isIn]
 
 theorem mem_releaseBits (flows : List FlowKind) (i : Nat) :
     i ∈ releaseBits flows ↔ ∃ k, flows[i]? = some k ∧ isRel k = true := by
@@ -422,10 +424,12 @@ theorem mem_releaseBits (flows : List FlowKind) (i : Nat) :
   constructor
   · rintro ⟨⟨j, k⟩, hm, hf⟩
     have := (mem_indexed flows (j, k)).1 hm
-    cases k <;> simp at hf <;> subst hf <;> exact ⟨_, this, rfl⟩
+    by_cases hr : isRel k = true
+    · simp only [hr, if_true, Option.some.injEq] at hf
+      subst hf; exact ⟨_, this, hr⟩
+    · simp [hr] at hf
   · rintro ⟨k, hk, hr⟩
-    refine ⟨(i, k), (mem_indexed flows (i, k)).2 hk, ?_⟩
-    cases k <;> simp [isRel] at hr ⊢
+    exact ⟨(i, k), (mem_indexed flows (i, k)).2 hk, by simp [hr]⟩
 
 theorem testBit_foldl_or (L : List Nat) (a i : Nat) :
     (L.foldl (· ||| ·) a).testBit i = true ↔ a.testBit i = true ∨ ∃ x ∈ L, x.testBit i = true := by
@@ -446,7 +450,10 @@ theorem testBit_foldl_or (L : List Nat) (a i : Nat) :
 
 theorem testBit_inBitOf (j : Nat) (k : FlowKind) (i : Nat) :
     (inBitOf j k).testBit i = true ↔ j = i ∧ isIn k = true := by
-  cases k <;> simp [inBitOf, isIn, Nat.testBit_two_pow]
+  unfold inBitOf
+  by_cases h : isIn k = true
+  · simp [h, Nat.testBit_two_pow]
+  · simp [h]
 
 theorem testBit_inMask (flows : List FlowKind) (i : Nat) :
     (inMask flows).testBit i = true ↔ ∃ k, flows[i]? = some k ∧ isIn k = true := by
@@ -474,18 +481,21 @@ theorem nodup_releaseBits (flows : List FlowKind) : (releaseBits flows).Nodup :=
   refine List.Pairwise.filterMap _ ?_ hp
   intro p q hpq b hb b' hb'
   have e1 : b = p.1 := by
-    rcases p with ⟨j, k⟩
-    cases k <;> simp at hb <;> exact hb.symm
+    by_cases hr : isRel p.2 = true
+    · simp only [hr, if_true, Option.some.injEq] at hb; exact hb.symm
+    · simp [hr] at hb
   have e2 : b' = q.1 := by
-    rcases q with ⟨j, k⟩
-    cases k <;> simp at hb' <;> exact hb'.symm
+    by_cases hr : isRel q.2 = true
+    · simp only [hr, if_true, Option.some.injEq] at hb'; exact hb'.symm
+    · simp [hr] at hb'
   rw [e1, e2]; exact hpq
 
 /-- **The generator's masks satisfy `MaskOK`.**  For every flow list of at most 30 flows with at
     least one flow waiting for a predecessor: `inMask`, `goalMask` and `releaseBits` satisfy the
     hypotheses of the mask-mode theorem.  (Classes with a control gather `.ctl k` use counters, not
     masks; for the others one thread per entry of `releaseBits` is exactly the set of releases.) -/
-theorem maskOK_of_flows (flows : List FlowKind) (hlen : flows.length ≤ 30) (hne : releaseBits flows ≠ []) :
+theorem maskOK_of_flows (flows : List FlowKind) (hlen : flows.length ≤ 30) (hne : releaseBits flows ≠ [])
+    (hwf : ∀ k ∈ flows, flowWF k = true) :
     MaskOK (inMask flows) (goalMask flows) (releaseBits flows) := by
   have hlt : ∀ i k, flows[i]? = some k → i < flows.length := fun i k h => (List.getElem?_eq_some_iff.1 h).1
   refine ⟨nodup_releaseBits flows, hne, fun b hb => ?_, fun b hb => ?_, fun b hb => ?_, fun i hg => ?_, ?_⟩
@@ -503,7 +513,7 @@ theorem maskOK_of_flows (flows : List FlowKind) (hlen : flows.length ≤ 30) (hn
       rw [hk] at hk'
       injection hk' with hk'
       subst hk'
-      cases k <;> simp [isRel, isIn] at hr hin
+      rw [rel_in_disjoint k hr] at hin; exact absurd hin (by simp)
   · unfold goalMask at hg
     rw [Nat.testBit_two_pow_sub_one] at hg
     have hi : i < flows.length := by simpa using hg
@@ -512,8 +522,11 @@ theorem maskOK_of_flows (flows : List FlowKind) (hlen : flows.length ≤ 30) (hn
     | true => exact Or.inr ((mem_releaseBits flows i).2 ⟨_, hk, hrel⟩)
     | false =>
       refine Or.inl ((testBit_inMask flows i).2 ⟨_, hk, ?_⟩)
-      generalize flows[i] = k at hrel
-      cases k <;> simp [isRel, isIn] at hrel ⊢
+      have := hwf flows[i] (List.getElem_mem hi)
+      simp only [flowWF, Bool.or_eq_true] at this
+      rcases this with h | h
+      · rw [hrel] at h; exact absurd h (by simp)
+      · exact h
   · unfold goalMask
     rw [Nat.testBit_two_pow_sub_one]
     simp; omega
